@@ -167,7 +167,10 @@ func (c *IPClient) measureClockOffsetIP(ctx context.Context, mtrcs *ipClientMetr
 	var ntsreq nts.Packet
 	if c.Auth.Enabled {
 		ntsreq, requestID = nts.NewRequestPacket(ntskeData)
-		nts.EncodePacket(&buf, &ntsreq)
+		err = nts.EncodePacket(&buf, &ntsreq)
+		if err != nil {
+			return time.Time{}, 0, err
+		}
 	}
 
 	n, err := conn.WriteToUDPAddrPort(buf, remoteAddr.AddrPort())
